@@ -3,10 +3,12 @@ CHECKS = {
   "text": "Machine-checked theorems (coq/props/C17.v, closed under the global context) that the Delay, NVAR and Concat models compute the documented "
           "window functions for every input sequence, delay, order, stride and dimension, and that the model's combination enumeration is exactly "
           "itertools' (weakly increasing tuples, each once, lexicographic). The model is tied to the code by running both on the same seeded "
-          "scenarios on every run; an implementation oracle recomputes the formulas directly.",
+          "scenarios on every run; an implementation oracle recomputes the formulas directly."
+          " NVAR.forward, Delay.forward and concat_forward are ALSO translated from the current source text on every run (coq/gen/Gen_windows.v) and proved equal to the model for every Num instance (C17_generated_*).",
   "note": "Trusted: Coq kernel, the hand-written model coq/model/Windows.v as a rendering of delay.py/nvar.py/concat.py and graphflow's fan-in sort, "
-          "the harness tools/props/c17.py, float64 exactness on small dyadic inputs. Node state handling of these nodes is C08/C12, not C17.",
-  "technique": "Coq proof (induction over the input list) about an executable Gallina model + model-vs-code correspondence by vm_compute",
+          "the harness tools/props/c17.py, float64 exactness on small dyadic inputs. Node state handling of these nodes is C08/C12, not C17."
+          "; the fail-closed kernel translator tools/vlib/py2coq_la.py + la_specs.py (np.roll, strided rows, slice writes, deque appendleft/pop as list operations of base/GenPrelude.v)",
+  "technique": "Coq proof (induction over the input list) about an executable Gallina model + model-vs-code correspondence by vm_compute + source-translated forward functions proved equal to the model (translator tie)",
  },
 }
 
@@ -115,7 +117,7 @@ CHECKS["C10"] = {
           "positive from a PSD invariant, for any list of successive train calls); LMS performs w - alpha_k(yhat-y)x~^T with the schedule consumed once per update, never on skipped steps; the train loop updates exactly on "
           "i mod learn_every = 0 and returns pre-update predictions; IP applies the documented tanh/sigmoid gradient step once per timestep, sequence, epoch, in that order. The model is run at Q against real RLS/LMS/FORCE/"
           "IPReservoir nodes on every run; an exact-Fraction ridge / explicit-loop oracle checks the real nodes directly."
-          " _rls, _lms, the two train functions and the readout helpers of readouts/base.py are ALSO translated from the current source text on every run (coq/gen/Gen_online.v), proved equal to the model (C10_generated_*), and executed at Q inside the same train loop against the real nodes.",
+          " _rls, _lms, the two train functions and the readout helpers of readouts/base.py are ALSO translated from the current source text on every run (coq/gen/Gen_online.v) -- likewise gaussian_gradients / exp_gradients / apply_gradients / ip / ip_activation of intrinsic_plasticity.py (coq/gen/Gen_ip.v) --, proved equal to the model (C10_generated_*), and executed at Q inside the same train loop against the real nodes.",
   "note": "IP / train-loop model hand-written (the RLS / LMS rules and readout helpers are additionally translated, see text); FORCE covered by correspondence only; IP activation values are recorded from the run (tanh/exp not evaluated in Coq; y=f(a x+b) checked by the Python oracle); default zero "
           "initial weights; noise gains 0; RLS alpha in [1/4, 4] and LMS rates <= 1/8 in scenarios. Trusted: Coq kernel + Reals axioms, coq/model/Online.v, harness tools/props/c10.py."
           "; the fail-closed kernel translator tools/vlib/py2coq_la.py + la_specs.py (add_bias is a pinned primitive)",
@@ -167,10 +169,12 @@ CHECKS["C20"] = {
           "place for X and y, with the test part of the requested size (an int, or the nearest integer of n*ratio by Python round), along axis 0/1 of 2-D series; one_hot_encode returns the sorted duplicate-free class list "
           "and, for every label, the unit vector of its class index, for 1-D, (n,1) and (n,m) arrays and lists of sequences (pieces keep their lengths); logistic_map and henon_map return n rows starting at x0 whose "
           "consecutive rows satisfy the map; narma returns n rows of an array satisfying its documented recurrence at every loop step; the pre-fix narma loop is refuted by a witness. The model runs at Q against the real "
-          "functions on every run; an oracle recomputes everything with Python fractions (also N-D series and negative axes).",
+          "functions on every run; an oracle recomputes everything with Python fractions (also N-D series and negative axes)."
+          " logistic_map, henon_map and narma are ALSO translated from the current source text on every run (coq/gen/Gen_maps.v: the for-loops that fill the arrays element by element become folds over seq) and proved equal to the models for every Num instance (C20_generated_*).",
   "note": "Hand-written model coq/model/Datasets.v; N-D (3-D or higher) series are decided by the oracle only; narma always gets a supplied u (numpy RNG not modelled); map runs are capped at n <= 10 because exact rationals "
-          "double in size each step. Trusted: Coq kernel (+ Reals axioms on the R-valued theorems), harness tools/props/c20.py.",
-  "technique": "Coq proofs by induction over lists and loop steps (lia, lra, ring via BSum), vm_compute witness for the refutation + model-vs-code correspondence at Q + fractions oracle",
+          "double in size each step. Trusted: Coq kernel (+ Reals axioms on the R-valued theorems), harness tools/props/c20.py."
+          "; the fail-closed kernel translator tools/vlib/py2coq_la.py + la_specs.py (for i in range(a, b) = fold over seq; X[i] = v = list update; integer subtractions accepted only where they provably stay >= 0)",
+  "technique": "Coq proofs by induction over lists and loop steps (lia, lra, ring via BSum), vm_compute witness for the refutation + model-vs-code correspondence at Q + fractions oracle + source-translated map generators proved equal to the model (translator tie)",
 }
 
 CHECKS["C09"] = {
